@@ -39,8 +39,10 @@ META = dict(
 )
 
 DT = [torch.float32, torch.float16, torch.bfloat16]
-HIST_OPS = sorted(programs.SHAPE_OPS | programs.MOVE_OPS | {"mul_scalar", "div_scalar", "neg", "relu", "softmax", "where",
-                                                              "torch.mul_scalar", "inplace_qdest", "inplace_fdest"})
+# every template: most arithmetic returns float tensors (the history then stops), but whatever comes back quantized - also
+# from an operation that should not have produced a quantized tensor - is checked
+HIST_OPS = sorted(set(programs.TEMPLATES) - {"conv2d", "bmm", "matmul", "linear", "linear_rev", "cross_entropy"}) + \
+    sorted(programs.SHAPE_OPS | programs.MOVE_OPS)  # shape ops and moves twice as likely
 
 
 def direct_check(ctx, t, site, **expect):
